@@ -1,9 +1,10 @@
 """C09 - modular and number-theoretic integer functions and scalar recodings are correct
 (DESIGN.md section 4, C09)."""
+import os
 import random
 import threading
 
-from vlib import core, gen_bnt
+from vlib import core, gen_bnt, gen_tau
 
 SPEC = "trace/BntTrace.tla"
 CHUNK = 300000
@@ -75,6 +76,9 @@ def run(tier, seed):
             conf.run("std256-%d" % n if len(cases) > CHUNK else "std256", "std256", "bnt", ["drv_bnt.c"],
                      cases[i:i + CHUNK], SPEC, nontrivial=nontrivial, driver_timeout=1800, tlc_timeout=2400,
                      min_per_shard=100)
+        # 4. extension (off until enabled): tau-adic recodings and signed aligned columns, vlib/gen_tau.py
+        if os.environ.get("C09_EXT") != "0":
+            gen_tau.run_ext(ev, conf, rng, tier, stats)
     finally:
         th.join()
     if mc_err:
